@@ -667,6 +667,11 @@ func (s *levelsController) subcompact(it y.Iterator, kr keyRange, cd compactDef,
 	// Check overlap of the top level with the levels which are not being
 	// compacted in this compaction.
 	hasOverlap := s.checkOverlap(cd.allTables(), cd.nextLevel.level+1)
+	if cd.nextLevel.level == 0 {
+		// An L0->L0 compaction leaves out L0 tables (too big, too recent, being compacted) that
+		// may hold older versions of the keys it merges, so it must keep deletion markers.
+		hasOverlap = true
+	}
 
 	// Pick a discard ts, so we can discard versions below this ts. We should
 	// never discard any versions starting from above this timestamp, because
